@@ -363,6 +363,17 @@ def c08(tapes, params):
         a.register()
         w.bind_auto_tags()
         for n in range(nattacks):
+            if g.chance(1, 8, 'abortconn'):
+                # a peer that completes the handshake and aborts at once: the connection is reset while
+                # it still sits in the listen backlog (accept() will hand out a dead socket)
+                for _ in range(1 + g.draw(3, 'nabort')):
+                    z = RefSession(w, 'abort%d' % n, chunk_mode='whole')
+                    z.connect()
+                    z.sock.tx.reset()
+                    z.sock.close()
+                    w.net.fired('RST_BEFORE_ACCEPT')
+                w.sched.sleep(0.2)
+                probe('after connections reset before accept')
             if a.eof or a.rst or a.sock.closed:
                 a = RefSession(w, 'attacker%d' % n, chunk_mode='whole')
                 a.connect()
